@@ -53,6 +53,8 @@ def run(P, R, tier):
     pb = P.func('spatialpandas.dask', 'DaskGeoSeries.partition_bounds')
 
     _common0 = __import__('rules.common', fromlist=['x'])
+    _common0.class_level_mutable_state(P, R, 'C12.b', [P.cls('spatialpandas.dask.DaskGeoSeries'), P.cls('spatialpandas.dask.DaskGeoDataFrame')],
+                                       'partition bounds / indexes cached by one frame are served to every other frame with a geometry column of that name, and written to their datasets')
     _common0.shared_mutable_defaults(P, R, 'C12.b', [w1, w2] + list(w2.nested.values()), 'the bounds of every geometry column are appended to one list, so each column records the interleaved bounds of all columns (and twice as many rows as partitions)')
     # ---------------------------------------------------------------- C12.a keys
     def keyset(f):
@@ -306,6 +308,8 @@ def run(P, R, tier):
         mask_name = mask_stmt.targets[0].id
         pre = blk.body[:blk.body.index(mask_stmt) + 1]
         rest = blk.body[blk.body.index(mask_stmt) + 1:]
+    global _PROG
+    _PROG = P
     _eval_filter(R, perform, pre, mask_name, tier)
 
     # C12.e: same mask everywhere
@@ -429,6 +433,63 @@ def _contains(root, node):
     return any(x is node for x in ast.walk(root))
 
 
+_PROG = None
+
+
+def _eval_filter_concrete(R, f, stmts, mask_name, src, why):
+    """The mask is not a pure comparison (arithmetic on the extents, clip, ...): evaluate it concretely (E-VEC) for one partition at a time, every extent
+    lo <= hi and every box (both corner orders) over {0, 1, 2} on both axes - ties and degenerate extents included - against closed overlap."""
+    import itertools as _it
+    import veceval
+    P = _PROG
+    # backward slice: only the statements the mask depends on (the table of extents itself is an input)
+    def _assigned(st):
+        out = set()
+        for x in ast.walk(st):
+            if isinstance(x, ast.Name) and isinstance(x.ctx, ast.Store):
+                out.add(x.id)
+        return out
+    needed, keep = {mask_name}, []
+    for st in reversed(stmts):
+        asg = _assigned(st)
+        if asg & needed and 'partitions_df' not in asg:
+            keep.append(st)
+            needed |= astq.names_in(st)
+    stmts = list(reversed(keep))
+    vals = (0, 1, 2)
+    bad, total = [], 0
+    for ex0, ex1, ey0, ey1 in _it.product(vals, repeat=4):
+        if ex0 > ex1 or ey0 > ey1:
+            continue
+        for qx0, qx1, qy0, qy1 in _it.product(vals, repeat=4):
+            total += 1
+            df = veceval.Stub()
+            df.x0, df.x1, df.y0, df.y1 = float(ex0), float(ex1), float(ey0), float(ey1)
+            env = {src: (float(qx0), float(qy0), float(qx1), float(qy1)), 'partitions_df': df, 'load_divisions': False}
+            ev = veceval.VecEval(P, f, env, 1)
+            try:
+                ev.block(stmts)
+            except veceval.Unsupported as e_:
+                raise AnalysisError(f'C12.d: mask could not be evaluated ({why}; concrete evaluation: {e_})')
+            except veceval.Returned:
+                raise AnalysisError('C12.d: return inside the filter fragment')
+            got = ev.env.get(mask_name)
+            if isinstance(got, list) or got is None:
+                raise AnalysisError(f'C12.d: mask could not be evaluated ({why})')
+            lx, hx, ly, hy = min(qx0, qx1), max(qx0, qx1), min(qy0, qy1), max(qy0, qy1)
+            want = not (ex1 < lx or ex0 > hx or ey1 < ly or ey0 > hy)
+            if bool(got) != want:
+                bad.append({'extent (x0, y0, x1, y1)': (ex0, ey0, ex1, ey1), 'box': (qx0, qy0, qx1, qy1), 'kept': bool(got), 'overlaps': want})
+    R.count('orderings', total)
+    R.exhaustive_sites['C12.d bounds filter (concrete, extents and boxes over {0,1,2})'] = True
+    if bad:
+        lost = [b for b in bad if b['overlaps'] and not b['kept']]
+        R.bad('C12.d', f, stmts[-1], f'partition filter differs from closed overlap on {len(bad)} of {total} extent/box pairs ({len(lost)} lose an overlapping partition: a box that only touches an '
+              f'extent, or an extent without width), e.g. {bad[0]}', construct=norm(stmts[-1]), counterexamples=bad[:5])
+    else:
+        R.ok('C12.d', f, stmts[-1], f'kept <=> recorded extent overlaps the closed, re-oriented box on all {total} extent/box pairs (concrete evaluation)', construct=norm(stmts[-1]))
+
+
 def _eval_filter(R, f, stmts, mask_name, tier):
     """Exhaustive order-type evaluation of the re-orientation + overlap mask: per axis symbols (qa, qb, e.lo, e.hi)."""
     # find the unpack statement `a, b, c, d = bounds`
@@ -474,10 +535,10 @@ def _eval_filter(R, f, stmts, mask_name, tier):
                 R.bad('C12.d', f, e.node, f'comparison mixes axes: {e.a.name} with {e.b.name}')
                 return
             except ordeval.NotComparisonOnly as e:
-                raise AnalysisError(f'C12.d: filter fragment is not comparison-only: {e}')
+                return _eval_filter_concrete(R, f, stmts, mask_name, src, f'not comparison-only: {e}')
             got = I.env.get(mask_name)
             if got is OPQ or got is None:
-                raise AnalysisError('C12.d: mask could not be evaluated')
+                return _eval_filter_concrete(R, f, stmts, mask_name, src, 'the mask is computed, not compared')
 
             def overlap(a):
                 if a[4]:
